@@ -171,6 +171,43 @@ def run(ctx):
             violations.append({"signature": ("accept" if "accepted" in d else "outcome") + ":allow_unknown-config",
                                "what": "allow_unknown given by name: " + d,
                                "replay": {"allow_unknown": common.jval(rules), "documents": [common.jval(doc)]}})
+    # top-level field rules given by name beside OTHER top-level fields written with shorthands / deprecated names /
+    # spaces in their sub-structure: the reference must not disturb the expansion of its siblings
+    from props import c15
+    for i in range(120 if not thorough else 1500):
+        base = c15.inject_of(g.schema(), g)
+        tops = [p for p in refs.referenceable(base) if p[1] == 'field' and len(p[0]) == 1]
+        if not tops:
+            continue
+        chosen = rng.sample(tops, rng.randrange(1, min(2, len(tops)) + 1))
+        named = {c[0][0] for c in chosen}
+        el = [rw for rw in c15.eligible(base) if rw[1][0] not in named and len(rw[1]) > 1]
+        if not el:
+            continue
+        sh = base
+        for rw in sorted(rng.sample(el, rng.randrange(1, min(3, len(el)) + 1)), key=lambda x: -len(x[1])):
+            try:
+                sh = c15.apply_rewrite(sh, rw)
+            except Exception:
+                pass
+        cfg = g.config()
+        docs = [g.doc_for(base, p_present=0.75)]
+        a = observe(sh, cfg, docs)
+        if a["accepted"] is not True:
+            continue
+        chosen_sh = [c for c in refs.referenceable(sh) if c[1] == 'field' and len(c[0]) == 1 and c[0][0] in named]
+        s2, rdefs, sdefs = refs.substitute(sh, chosen_sh)
+        module_level = rng.random() < 0.35
+        b = observe(s2, cfg, docs, refs.make_registries(rdefs, sdefs), module_level)
+        cases += 1
+        dist["ref@field-beside-shorthand-siblings"] += 1
+        d = compare(a, b)
+        if d:
+            violations.append({"signature": "shorthand-sibling:" + ("accept" if "accepted" in d else "outcome"),
+                               "what": "top-level field rules given by name beside fields written in shorthand form: " + d,
+                               "replay": {"inline": common.jval(sh), "referenced": common.jval(s2), "rules_set_registry": common.jval(rdefs),
+                                          "schema_registry": common.jval(sdefs), "config": common.jval(cfg), "module_level": module_level,
+                                          "documents": [common.jval(x) for x in docs]}})
     # a reference beside a field whose name has a space (a legal field name): the sub-schema must still be read as a schema
     for i in range(40 if not thorough else 400):
         other = rng.choice(['first name', 'a b', 'x y z'])
